@@ -14,6 +14,9 @@ PARTIAL = ['for arbitrary strings over the token-kind alphabet the squeeze case 
 TRUSTED = ['harness/gen_tables.py', 'correspondence harness (parsecorr.py): parse of s and of the serialised text',
            'modelled, not verified: control flow of reader.py, tokens.py, data.py serialisers']
 ASSUMPTIONS = ['CPython str semantics', 'the model driver is the compiled form of the verified definitions']
+LEAN_TARGETS = LEAN_TARGETS + ['TexSoupProofs.Properties.TableSpec']
+# entries of the generated tables that the property's statement names (they stop compiling when a table edit drops them)
+THEOREMS = THEOREMS + ['TexSoup.TableSpec.' + n for n in ['fixed_signatures', 'sizing_prefixes_and_delimiters', 'spacer_chars']]
 
 ALPHA = [a for a in gen.TOKEN_ALPHA if '\x00' not in a and '\x7f' not in a]
 
